@@ -3625,6 +3625,7 @@ class NameCheckVisitor(node_visitor.ReplacingNodeVisitor):
             if (
                 SYS_PLATFORM_EXTENSION in lhs.metadata
                 and isinstance(rhs, KnownValue)
+                and isinstance(rhs.val, str)
                 and isinstance(op, (ast.Eq, ast.NotEq))
             ):
                 op_func, _, _ = COMPARATOR_TO_OPERATOR[type(op)]
@@ -3632,10 +3633,15 @@ class NameCheckVisitor(node_visitor.ReplacingNodeVisitor):
             elif (
                 SYS_VERSION_INFO_EXTENSION in lhs.metadata
                 and isinstance(rhs, KnownValue)
+                and isinstance(rhs.val, tuple)
                 and isinstance(op, (ast.Gt, ast.GtE, ast.Lt, ast.LtE))
             ):
                 op_func, _, _ = COMPARATOR_TO_OPERATOR[type(op)]
-                definite_value = op_func(sys.version_info, rhs.val)
+                try:
+                    definite_value = op_func(sys.version_info, rhs.val)
+                except Exception:
+                    # e.g. (3, "8"), which fails at runtime too; keep both branches
+                    pass
             lhs = lhs.value
         if isinstance(lhs_constraint, PredicateProvider) and isinstance(
             rhs, KnownValue
